@@ -20,7 +20,7 @@ Definition as_rtabs : sx -> option (list obs_rtab) :=
 
 Inductive case :=
   | KRows (tabs : list obs_rtab)
-  | KTables (cls : class) (rows : list (Z * obs_scaler * obs_scaler))
+  | KTables (cls : class) (rows : list (Z * obs_scaler * obs_scaler * (option bytes * option bytes)))
   | KCommon (cls : class) (vals : list b64) (s : obs_scaler) (strs : list bytes)
             (scale_str : option bytes) (same_as_min : bool)
   | KFormat (prec : Z) (factor : b64) (prefix : bytes) (v : b64) (oracle : list (b64 * bytes)) (out : bytes)
@@ -34,7 +34,7 @@ Definition decode (s : sx) : option case :=
   match s with
   | SL [SZ 0; c; rows] =>
       do c <- as_class c;
-      do rows <- as_list (as_triple as_z as_scaler as_scaler) rows;
+      do rows <- as_list (as_pair (as_triple as_z as_scaler as_scaler) (as_pair (as_opt as_b) (as_opt as_b))) rows;
       Some (KTables c rows)
   | SL [SZ 1; c; vals; sc; strs; ss; same] =>
       do c <- as_class c;
@@ -74,6 +74,8 @@ Fixpoint lookup_shortest (t : list (b64 * bytes)) (q : b64) : bytes :=
   end.
 
 Definition blist_eqb := list_eqb beq.
+Definition obytes_eqb (a b : option bytes) : bool :=
+  match a, b with Some x, Some y => beq x y | None, None => true | _, _ => false end.
 
 (** ** thresholds of the model's tables that must show as change points *)
 Definition table_thresholds (cls : class) : list b64 :=
@@ -134,10 +136,12 @@ Definition corr_ok (c : case) : bool :=
   match c with
   | KRows tabs => forallb rtab_corr tabs
   | KTables cls rows =>
-      forallb (fun '(b, at_b, below) =>
+      forallb (fun '(b, at_b, below, (sa, sb)) =>
                  oscaler_eqb (common_scale [b64_of_bits b] cls) at_b
-                 && oscaler_eqb (common_scale [b64_of_bits (b - 1)] cls) below) rows
-      && forallb (fun t => existsb (fun '(b, _, _) => b =? bits_of_b64 t) rows)
+                 && oscaler_eqb (common_scale [b64_of_bits (b - 1)] cls) below
+                 && obytes_eqb (scale (fun _ => oracle_miss) (b64_of_bits b) cls) sa
+                 && obytes_eqb (scale (fun _ => oracle_miss) (b64_of_bits (b - 1)) cls) sb) rows
+      && forallb (fun t => existsb (fun '(b, _, _, _) => b =? bits_of_b64 t) rows)
                  (table_thresholds cls ++ direct_sigfigs cls)
       && Nat.eqb (length rows) (expected_changes cls)
   | KCommon cls vals s strs ss _ =>
@@ -169,7 +173,11 @@ Definition corr_ok (c : case) : bool :=
 Definition is_pos_finite (x : b64) : bool :=
   match x with S754_finite false _ _ => true | _ => false end.
 
-(** checks of one printed value [str] for value [v] under the observed scale *)
+(** checks of one printed value [str] for value [v] under the observed scale.
+    [relax = false]: the property (the sharp half-unit bound, no allowance).
+    [relax = true]: the judge of the known findings ([known_ok]): exactly the
+    recorded deviations of C10_shared_scale_quotient_overflow and
+    C10_quotient_rounded_before_printing are allowed in addition *)
 Definition printed_ok_gen (relax : bool) (cls : class) (p : Z) (pre : bytes) (v : b64) (str : bytes) : option Z :=
   (* returns the scaled integer printed, if the text is well-formed and within half a unit *)
   match v with
@@ -191,15 +199,23 @@ Definition printed_ok_gen (relax : bool) (cls : class) (p : Z) (pre : bytes) (v 
           (* KNOWN FINDING C10_shared_scale_quotient_overflow: the real code prints
              "+Inf<prefix>" there, which is not within half a unit of the value, so the
              property fails on such a case (the harness tags it; corr_ok still ties
-             the model's +Inf to the code's).  With [relax] (the judge of the known
-             finding, [known_ok]) exactly this outcome is allowed: the text is the
-             infinity of the value's sign and the exact quotient really is out of range *)
+             the model's +Inf to the code's).  With [relax] exactly this outcome is
+             allowed: the text is the infinity of the value's sign and the exact
+             quotient really is out of range *)
           if relax && beq str ((if s then bs "-Inf" else bs "+Inf") ++ pre)
              && (2 ^ 1023 * fn * 2 ^ (Z.max (- e) 0) <=? Zpos m * 2 ^ (Z.max e 0) * fd)
           then Some (2 ^ 1100) else None
       | Some pf, Some (fn, fd) =>
+          (* KNOWN FINDING C10_quotient_rounded_before_printing: the code prints the
+             decimal of the binary64 quotient v / Factor, so under a decimal prefix a
+             value next to a rounding tie (m, micro, n) or with more digits than a
+             binary64 holds (any decimal prefix, shared scale) is off by more than half
+             a unit.  The property has no allowance: [sn = 0].  With [relax] the error
+             of that one quotient ([quotient_slack]: nothing for power-of-two factors)
+             is allowed on top of the half unit, nothing else *)
+          let '(sn, sd) := if relax then quotient_slack fn fd else (0, 1) in
           if Bool.eqb (pf_neg pf) s && (Z.of_nat (pf_prec pf) =? p) && beq (pf_rest pf) pre
-             && half_unit_ok true 51 m e (pf_scaled pf) (pf_prec pf) fn fd
+             && half_unit_slack sn sd m e (pf_scaled pf) (pf_prec pf) fn fd
              (* no leading zeros beyond the one before the point *)
              && ((pf_int_digits pf =? 1)%nat || (10 ^ (Z.of_nat (pf_int_digits pf) - 1 + Z.of_nat (pf_prec pf)) <=? pf_scaled pf))
           then Some (pf_scaled pf) else None
@@ -216,7 +232,7 @@ Definition has_nan (vals : list b64) : bool := existsb b64_is_nan vals.
 
 Definition prop_common_gen (relax : bool) (cls : class) (vals : list b64) (s : obs_scaler) (strs : list bytes)
            (ss : option bytes) (same : bool) : bool :=
-  if has_nan vals then true   (* the property is silent about NaN; behaviour there is compared by corr_ok only *)
+  if has_nan vals then true   (* the property quantifies over finite magnitudes; NaN behaviour is compared by corr_ok only *)
   else
   match cls, s with
   | BadClass, None => negb (b64_eq (spec_min vals) b64_zero)   (* panics only when there is something to scale *)
@@ -266,20 +282,28 @@ Definition first_fixed (strs : list bytes) : option parsed_fixed :=
   | p :: _ => Some p
   | [] => None
   end.
-Definition row_prop (cls : class) (same : bool) (vals : list b64) (strs : list bytes) : bool :=
+Definition row_prop (relax : bool) (cls : class) (same : bool) (vals : list b64) (strs : list bytes) : bool :=
   match vals with
   | [] => true
   | _ =>
       match first_fixed strs with
       | Some pf =>
-          prop_common cls vals (Some (Z.of_nat (pf_prec pf), b64_zero, pf_rest pf)) strs
+          prop_common_gen relax cls vals (Some (Z.of_nat (pf_prec pf), b64_zero, pf_rest pf)) strs
                       (match strs with [s] => Some s | _ => None end) same
       | None => forallb (fun v => negb (b64_is_finite v)) vals    (* only NaN / infinities to print *)
       end
   end.
+Definition rtab_judge (relax : bool) (cls : class) (t : obs_rtab) : bool :=
+  rtab_eval (fun same _ vals strs => row_prop relax cls same vals strs) t.
+(** the property on one table: the class is the one the unit has ([spec_class]) *)
+Definition rtab_prop_sharp (t : obs_rtab) : bool := rtab_judge false (spec_class (fst (fst t))) t.
+(** the same up to C10's known findings (the quotient's rounding, its overflow,
+    a unit whose bytes are spelled in a way ClassOf does not know judged as
+    Decimal).  This is [known_ok] of kind 4 and what C16 (kind 6) demands of its
+    rows: C16 is about the table, C10's recorded deviations are reported here *)
 Definition rtab_prop (t : obs_rtab) : bool :=
-  let cls := spec_class (fst (fst t)) in
-  rtab_eval (fun same _ vals strs => row_prop cls same vals strs) t.
+  let u := fst (fst t) in
+  rtab_judge true (spec_class u) t || rtab_judge true (narrow_class u) t.
 
 (** Format with an arbitrary Scaler: the text is the half-even decimal of the
     binary64 quotient (exactly: no slack), resp. the shortest decimal that
@@ -306,34 +330,65 @@ Definition prop_format (p : Z) (f : b64) (pre : bytes) (v : b64) (out : bytes) :
       end
   end.
 
+(** ** change points (kind 0): prefix boundaries coincide exactly with how the
+    mantissa rounds.  [b] is the bit pattern of the least binary64 that gets the
+    scale [at_b]; the one just below gets [below].  Both are judged like any
+    lone value (four resp. three significant digits with the mantissa in range,
+    half a unit, the text of Scale), and across the boundary the mantissa rolls
+    over: the value below prints the largest mantissa of its scale (9.999, 99.99,
+    999.9; 1023.9 below a binary prefix; 0.09999 ...), the value at the boundary
+    1.000 / 10.00 / 100.0 / 0.1000 ... of the next - "999.95 prints as 1.000k and
+    never as 1000.0 or 0.9999k" *)
+Definition printed_n (cls : class) (s : obs_scaler) (v : b64) (str : option bytes) : option (Z * Z) :=
+  match s, str with
+  | Some (p, _, pre), Some str =>
+      match printed_ok_gen true cls p pre v str with Some n => Some (p, n) | None => None end
+  | _, _ => None
+  end.
+Definition olist {A} (o : option A) : list A := match o with Some x => [x] | None => [] end.
+Definition prop_boundary (relax : bool) (cls : class)
+           (row : Z * obs_scaler * obs_scaler * (option bytes * option bytes)) : bool :=
+  let '(b, at_b, below, (sa, sb)) := row in
+  let v1 := b64_of_bits b in
+  let v0 := b64_of_bits (b - 1) in
+  prop_common_gen relax cls [v1] at_b (olist sa) sa true
+  && prop_common_gen relax cls [v0] below (olist sb) sb true
+  && (if b64_le (lo3 cls) v0 && b64_lt v1 (top cls) then
+        match printed_n cls at_b v1 sa, printed_n cls below v0 sb with
+        | Some (_, n1), Some (p0, n0) =>
+            (n1 =? 1000) && (n0 =? (match cls with Binary => if p0 =? 1 then 10239 else 9999 | _ => 9999 end))
+        | _, _ => false
+        end
+      else true).
+
+Definition class_matches (c : class) (z : Z) : bool :=
+  match c, z with Decimal, 0 => true | Binary, 1 => true | _, _ => false end.
+
 Definition prop_ok (c : case) : bool :=
   match c with
-  | KRows tabs => forallb rtab_prop tabs
-  | KTables cls rows =>
-      (* prefix boundaries coincide with how the mantissa rounds: on each side
-         of every change point the value is printed with four digits *)
-      forallb (fun '(b, at_b, below) =>
-        match at_b, below with
-        | Some _, Some _ => true
-        | _, _ => false
-        end) rows
+  | KRows tabs => forallb rtab_prop_sharp tabs
+  | KTables cls rows => forallb (prop_boundary false cls) rows
   | KCommon cls vals s strs ss same => prop_common cls vals s strs ss same
   | KFormat p f pre v _ out => prop_format p f pre v out
-  | KClass u c =>
-      match spec_class u, c with
-      | Decimal, 0 => true
-      | Binary, 1 => true
-      | _, _ => false
-      end
+  | KClass u c => class_matches (spec_class u) c
   end.
 
-(** the judge of known finding C10_shared_scale_quotient_overflow: everything [prop_ok]
-    demands, except that a finite value whose exact quotient by the shared factor
-    is out of the binary64 range may print as the infinity of its sign *)
+(** the judge of the known findings of C10: everything [prop_ok] demands, except
+    exactly their recorded deviations -
+    C10_shared_scale_quotient_overflow: a finite value whose exact quotient by the
+      shared factor is out of the binary64 range may print as the infinity of its sign;
+    C10_quotient_rounded_before_printing: under a decimal prefix the half unit may
+      be exceeded by the rounding error of the binary64 quotient ([quotient_slack]:
+      2^-53 |v| for k M G T, 2^-52 (1 + 2^-52) |v| for m micro n, nothing otherwise);
+    C10_classof_byte_spellings: a unit whose only byte tokens in the numerator are
+      spelled otherwise than B, MB, bytes may be classified Decimal *)
 Definition known_ok (c : case) : bool :=
   match c with
+  | KRows tabs => forallb rtab_prop tabs
+  | KTables cls rows => forallb (prop_boundary true cls) rows
   | KCommon cls vals s strs ss same => prop_common_gen true cls vals s strs ss same
-  | _ => prop_ok c
+  | KClass u c => class_matches (spec_class u) c || class_matches (narrow_class u) c
+  | KFormat _ _ _ _ _ _ => prop_ok c
   end.
 
 Definition run_case (s : sx) : N :=
